@@ -359,7 +359,8 @@ func (p *Project) WithProfiles(profiles []string) (*Project, error) {
 	}
 	newProject.Services = enabled
 	newProject.DisabledServices = disabled
-	newProject.Profiles = profiles
+	// a copy: the list may be (part of) the receiver's own, e.g. p.WithProfiles(append(p.Profiles, "debug"))
+	newProject.Profiles = append([]string(nil), profiles...)
 	return newProject, nil
 }
 
